@@ -458,16 +458,9 @@ Fixpoint eval (fuel : nat) (n : node) (c : N) {struct fuel} : M result :=
     else if dt_is (r_type v) KDate && negb (dk_eqb target KInt) && negb (dk_eqb target KStr) then rt_error t c
     else p' <- cast_prim t c p target ;; ret (res_of target p')
   | NAccess t r =>
-    h <- catch (x <- resolve f r c ;; ret (inl x))
-               (fun fl => match fl with
-                          | FErr d => match d_cls d with
-                                      | ENotDefined => Some (e <- get_enum_element c (tval t) true ;;
-                                                             match e with
-                                                             | Some ti => ret (inr ti)
-                                                             | None => failm fl
-                                                             end)
-                                      | _ => None end
-                          | _ => None end) ;;
+    h <- catch_cls (x <- resolve f r c ;; ret (inl x)) is_not_defined
+                   (fun fl => en <- get_enum_element c (tval t) true ;;
+                              match en with Some ti => ret (inr ti) | None => failm fl end) ;;
     match h with
     | inr (tn, i) => ret (mkRes (mkDT KEnum (Some tn)) (Some (PEnum tn i)))
     | inl (HArr _) => array_direct_error t c
@@ -480,12 +473,9 @@ Fixpoint eval (fuel : nat) (n : node) (c : N) {struct fuel} : M result :=
   | NAssign t e r =>
     (* 1. the value; an ArrayDirectAccessError raised in this context while evaluating an AccessNode
           turns the statement into an array assignment (any other node: the error propagates) *)
-    vr <- catch (x <- eval f e c ;; ret (Some x))
-                (fun fl => match fl, e with
-                           | FErr d, NAccess _ _ => match d_cls d with
-                                                    | EArrayDirect c' => if N.eqb c' c then Some (ret None) else None
-                                                    | _ => None end
-                           | _, _ => None end) ;;
+    vr <- (if (match e with NAccess _ _ => true | _ => false end)
+           then catch_cls (x <- eval f e c ;; ret (Some x)) (is_array_direct c) (fun _ => ret None)
+           else (x <- eval f e c ;; ret (Some x))) ;;
     match vr with
     | None =>
       match e with
@@ -508,17 +498,16 @@ Fixpoint eval (fuel : nat) (n : node) (c : N) {struct fuel} : M result :=
       end
     | Some v =>
       if dt_is (r_type v) KNone then rt_error t c else
-      id <- catch (h <- resolve f r c ;; expect_holder_var t c h)
-                  (fun fl => match fl with
-                             | FErr d => match d_cls d, r with
-                                         | ENotDefined, RSimple tk =>
-                                           Some (ist <- is_identifier_type c tk true ;;
-                                                 if ist then failm fl
-                                                 else ped_guard pedantic t ;;;
-                                                      nid <- new_var f (tval tk) (r_type v) false c ;;
-                                                      add_var c (tval tk) nid ;;; ret nid)
-                                         | _, _ => None end
-                             | _ => None end) ;;
+      id <- (match r with
+             | RSimple tk =>
+               catch_cls (h <- resolve f r c ;; expect_holder_var t c h) is_not_defined
+                         (fun fl => ist <- is_identifier_type c tk true ;;
+                                    if ist then failm fl
+                                    else ped_guard pedantic t ;;;
+                                         nid <- new_var f (tval tk) (r_type v) false c ;;
+                                         add_var c (tval tk) nid ;;; ret nid)
+             | _ => h <- resolve f r c ;; expect_holder_var t c h
+             end) ;;
       store_value t c id v
     end
   | NPtrAssign t pr vr =>
@@ -665,17 +654,16 @@ Fixpoint eval (fuel : nat) (n : node) (c : N) {struct fuel} : M result :=
     iterM (fun e : node => r <- eval f e c ;; output_item c (node_token e) r) es ;;;
     emit [ch_nl] ;;; ret res_none
   | NInput t r =>
-    id <- catch (h <- resolve f r c ;; expect_holder_var t c h)
-                (fun fl => match fl with
-                           | FErr d => match d_cls d, r with
-                                       | ENotDefined, RSimple tk =>
-                                         Some (ist <- is_identifier_type c tk true ;;
-                                               if ist then failm fl
-                                               else ped_guard pedantic tk ;;;
-                                                    nid <- new_var f (tval tk) (dt_prim KStr) false c ;;
-                                                    add_var c (tval tk) nid ;;; ret nid)
-                                       | _, _ => None end
-                           | _ => None end) ;;
+    id <- (match r with
+           | RSimple tk =>
+             catch_cls (h <- resolve f r c ;; expect_holder_var t c h) is_not_defined
+                       (fun fl => ist <- is_identifier_type c tk true ;;
+                                  if ist then failm fl
+                                  else ped_guard pedantic tk ;;;
+                                       nid <- new_var f (tval tk) (dt_prim KStr) false c ;;
+                                       add_var c (tval tk) nid ;;; ret nid)
+           | _ => h <- resolve f r c ;; expect_holder_var t c h
+           end) ;;
     cl <- get_cell id ;;
     if c_const cl then rt_error t c else
     '(line, _) <- read_line ;;
